@@ -1,177 +1,298 @@
-(* Call/Model.v — self-contained small model of checking one call against one
-   signature (pyanalyze/signature.py: bind_arguments on concrete calls,
+(* Call/Model.v — model of checking one call against one signature
+   (pyanalyze/signature.py: check_call_preprocessed = bind_arguments +
    check_call_with_bound_args, _check_param_type_compatibility,
-   get_default_return), composed with the type-variable solver of C15
-   (TypeVar/Model.v: arg_ok, arg_bounds, mresolve).
+   get_default_return), built on
 
-   Scope: parameters of kind positional-or-keyword, keyword-only, *args, **kwargs,
-   with or without default, annotated with a type of the value fragment, with
-   the bare type variable T (one type variable per signature, declared
-   unbounded / bounded / constrained), or unannotated; calls with literal
-   positional and keyword arguments (no star arguments).  Well-formedness
-   assumed by the generators (and by nothing else): the parameter order is
-   pos-or-kw*, [*args], kw-only*, [**kwargs]; a parameter with a default is not
-   annotated with T (its default would contribute a lower bound), and neither is
-   *args / **kwargs (pyanalyze unites the collected arguments into one lower
-   bound there; the model would treat them one by one).
+     * the C05 binder  PV.Binder.Bind.bind  (all five parameter kinds, star
+       arguments at the call site) — the values of the arguments travel next to
+       the flags the binder looks at, and are re-attached to its result
+       (position, payload) by `bound_values`;
+     * the C15 solver  PV.TypeVar.Model.mresolve  (= the model regenerated from
+       typevar.py), once per type variable of the signature.
 
-   Values are abstract (`ops V`, as in C15); `val o` is the KnownValue of the
-   literal argument object `o`. *)
+   Annotations: a type of the value fragment, a type variable T_k, list[T_k],
+   dict[T_k, T_j], Callable[[T_k], r] with r a type / a type variable / absent,
+   or no annotation.  Argument values: an opaque static value (a literal's
+   KnownValue, a class type, a union ...), list[v], dict[k, v], a callable
+   (p) -> r.  Bound generation through these forms mirrors
+   TypeVarValue.can_assign (lower bound), GenericValue.can_assign (element-wise)
+   and Signature.can_assign / TypeVarValue.can_be_assigned (a callback's
+   parameter type is an UPPER bound, its return type a lower bound).
+
+   Several values bound to one parameter ( *args, **kwargs, `unite_values(star_args,
+   star_kwargs)`) are ONE lower bound for a parameter annotated T_k: their
+   union (pyanalyze turns the tuple / dict of collected arguments into
+   tuple[union, ...] / dict[str, union] first; when nothing was collected the
+   element type is Any, so an unused `*args: T` contributes the lower bound Any
+   and T is solved to Any unless another argument gives a lower bound).  A default contributes its
+   lower bound when it fits the declaration and nothing otherwise, and is never
+   reported.
+
+   Shape assumption made by the generators only: a structured argument
+   (list / dict / callable) is passed for a parameter with the matching
+   structured annotation, for an unannotated parameter, or not at all. *)
 From Coq Require Import List Bool Arith NArith.
 Import ListNotations.
 Require Import PV.TypeVar.Base PV.TypeVar.Model.
-
-Inductive pkind : Type := PosOrKw | KwOnly | VarPos | VarKw.
+Require Import PV.Binder.Kind PV.Binder.Sig PV.Binder.Bind.
 
 Section CallModel.
   Context {V : Type} (O : ops V) (limit : nat).
-  Context {Obj : Type} (val : Obj -> V).
+
+  Inductive aval : Type :=
+  | AV (v : V)
+  | AList (e : V)
+  | ADict (k v : V)
+  | AFun (p r : V).
+
+  Inductive rann : Type := RNone | RTy (t : V) | RVar (j : nat).
 
   Inductive annot : Type :=
-  | AnnNone                 (* unannotated *)
+  | AnnNone
   | AnnTy (t : V)
-  | AnnVar.                 (* the signature's type variable T *)
+  | AnnVar (k : nat)
+  | AnnList (k : nat)
+  | AnnDict (k j : nat)
+  | AnnFun (k : nat) (r : rann).
 
-  Record param : Type := mk_param {
-    pname : N;
-    kind : pkind;
-    has_default : bool;
-    ann : annot
+  Record cparam : Type := mk_cparam {
+    cp : param;                 (* name, kind, has-default flag: what the binder sees *)
+    ann : annot;
+    dflt : option aval          (* value of the default, when there is one *)
   }.
 
-  Record sig : Type := mk_sig {
-    params : list param;
-    tdecl : @decl V;         (* declaration of T *)
-    ret : annot
+  Record csig : Type := mk_csig {
+    cparams : list cparam;
+    decls : list (@decl V);     (* declaration of T_k = nth k decls Unbounded *)
+    cret : rann
   }.
 
-  Record call : Type := mk_call {
-    cpos : list Obj;
-    ckw : list (N * Obj)     (* distinct names (Python syntax) *)
+  Record ccall : Type := mk_ccall {
+    a_pos : list aval;
+    a_star : option aval;       (* element value of a *args argument of unknown length *)
+    a_kw : list (N * aval);
+    a_starkw : option aval      (* value type of a **kwargs argument *)
   }.
+
+  Definition is_some {A} (x : option A) : bool := match x with Some _ => true | None => false end.
+  Definition opt_list {A} (x : option A) : list A := match x with Some a => [a] | None => [] end.
+
+  Definition sig_of (s : csig) : sig := map cp (cparams s).
+
+  Definition actuals_of (c : ccall) : actuals :=
+    mkActuals (map (fun _ => true) (a_pos c)) (is_some (a_star c))
+              (map (fun '(n, _) => (n, true)) (a_kw c)) (is_some (a_starkw c)) (is_some (a_starkw c)).
+
+  Fixpoint kw_find (n : N) (kw : list (N * aval)) : list aval :=
+    match kw with
+    | [] => []
+    | (m, v) :: r => if N.eqb n m then [v] else kw_find n r
+    end.
 
   (* what a parameter is bound to *)
   Inductive barg : Type :=
-  | BOne (o : Obj)
-  | BDefault
-  | BMany (os : list Obj).   (* *args / **kwargs *)
+  | BVals (vs : list aval)          (* argument value(s): checked *)
+  | BDefault (d : option aval).     (* the default: never reported *)
 
-  Definition objs_of (b : barg) : list Obj :=
-    match b with BOne o => [o] | BDefault => [] | BMany os => os end.
-
-  (* ---- binding (concrete calls) ---- *)
-  Fixpoint kw_take (n : N) (kw : list (N * Obj)) : option (Obj * list (N * Obj)) :=
-    match kw with
-    | [] => None
-    | (m, o) :: kw' =>
-        if N.eqb n m then Some (o, kw')
-        else match kw_take n kw' with
-             | Some (o', rest) => Some (o', (m, o) :: rest)
-             | None => None
-             end
-    end.
-
-  Definition kw_mem (n : N) (kw : list (N * Obj)) : bool := existsb (fun '(m, _) => N.eqb n m) kw.
-
-  Definition cons_opt {A} (x : A) (r : option (list A)) : option (list A) :=
-    match r with Some l => Some (x :: l) | None => None end.
-
-  Fixpoint bind_go (ps : list param) (pos : list Obj) (kw : list (N * Obj))
-      : option (list (param * barg)) :=
-    match ps with
-    | [] => match pos, kw with [], [] => Some [] | _, _ => None end
-    | p :: ps' =>
-        let by_keyword :=
-          match kw_take (pname p) kw with
-          | Some (o, kw') => cons_opt (p, BOne o) (bind_go ps' [] kw')
-          | None => if has_default p then cons_opt (p, BDefault) (bind_go ps' [] kw) else None
-          end in
-        match kind p with
-        | PosOrKw =>
-            match pos with
-            | o :: pos' => if kw_mem (pname p) kw then None   (* multiple values *)
-                           else cons_opt (p, BOne o) (bind_go ps' pos' kw)
-            | [] => by_keyword
+  (* re-attach values to one entry of the binder's result *)
+  Definition bound_values (c : ccall) (p : cparam) (pos : position) (pl : payload) : barg :=
+    match pl with
+    | Tuple from count plus =>
+        BVals (firstn count (skipn from (a_pos c)) ++ (if plus then opt_list (a_star c) else []))
+    | Dict names plus =>
+        BVals (flat_map (fun n => kw_find n (a_kw c)) names ++ (if plus then opt_list (a_starkw c) else []))
+    | One =>
+        match pos with
+        | Pos i => BVals (opt_list (nth_error (a_pos c) i))
+        | Kw n => BVals (kw_find n (a_kw c))
+        | Default => BDefault (dflt p)
+        | _ =>   (* ARGS / KWARGS / UNKNOWN: filled from a star argument *)
+            match pkind (cp p) with
+            | PO => BVals (opt_list (a_star c))
+            | POK => match a_star c with
+                     | Some x => BVals (x :: opt_list (a_starkw c))   (* unite_values(star_args, star_kwargs) *)
+                     | None => BVals (opt_list (a_starkw c))
+                     end
+            | _ => BVals (opt_list (a_starkw c))
             end
-        | VarPos => cons_opt (p, BMany pos) (bind_go ps' [] kw)
-        | KwOnly => match pos with [] => by_keyword | _ => None end   (* too many positionals *)
-        | VarKw => match pos with
-                   | [] => cons_opt (p, BMany (map snd kw)) (bind_go ps' [] [])
-                   | _ => None
-                   end
         end
     end.
 
-  Definition bind (s : sig) (c : call) : option (list (param * barg)) :=
-    bind_go (params s) (cpos c) (ckw c).
-
-  (* ---- per-parameter compatibility ---- *)
-  Definition sub (sol : V) (a : annot) : option V :=
-    match a with AnnNone => None | AnnTy t => Some t | AnnVar => Some sol end.
-
-  (* _check_param_type_compatibility: a default is not checked; *args / **kwargs
-     are checked element-wise (tuple[T, ...] / dict[str, T] against the literal
-     tuple / dict of the collected arguments) *)
-  Definition arg_fits (t : option V) (b : barg) : bool :=
-    match t with
-    | None => true
-    | Some t => forallb (fun o => acc O t (val o)) (objs_of b)
+  Definition cbind (s : csig) (c : ccall) : option (list (cparam * barg)) :=
+    match bind (sig_of s) (actuals_of c) with
+    | None => None
+    | Some r => Some (map (fun '(p, (_, pos, pl)) => (p, bound_values c p pos pl)) (combine (cparams s) r))
     end.
 
-  Definition is_var (a : annot) : bool := match a with AnnVar => true | _ => false end.
+  (* ---- bound generation ---- *)
+  Definition decl_of (s : csig) (k : nat) : @decl V := nth k (decls s) Unbounded.
+
+  Definition tagged : Type := (nat * PV.TypeVar.Base.bound V)%type.
+  Definition tag (k : nat) (bs : list (PV.TypeVar.Base.bound V)) : list tagged := map (fun b => (k, b)) bs.
+
+  (* TypeVarValue.can_assign(v): LowerBound(v) + inherent bounds, solvable on their own *)
+  Definition lower_gen (s : csig) (k : nat) (v : V) : option (list tagged) :=
+    let bs := arg_bounds (decl_of s k) v in
+    if is_err (mresolve O limit bs) then None else Some (tag k bs).
+
+  (* TypeVarValue.can_be_assigned(v): UpperBound(v) + inherent bounds *)
+  Definition upper_gen (s : csig) (k : nat) (v : V) : option (list tagged) :=
+    let bs := UpperBound v :: inherent (decl_of s k) in
+    if is_err (mresolve O limit bs) then None else Some (tag k bs).
+
+  Definition both {A} (x y : option (list A)) : option (list A) :=
+    match x, y with Some a, Some b => Some (a ++ b) | _, _ => None end.
+
+  Fixpoint all_gen {A B} (f : A -> option (list B)) (l : list A) : option (list B) :=
+    match l with
+    | [] => Some []
+    | x :: r => both (f x) (all_gen f r)
+    end.
+
+  Definition av_values (vs : list aval) : option (list V) :=
+    all_gen (fun a => match a with AV v => Some [v] | _ => None end) vs.
+
+  Definition unite_all (vs : list V) : option V :=
+    match vs with
+    | [] => None
+    | v :: r => Some (fold_left (unite O) r v)
+    end.
+
+  (* the bounds one bound argument contributes; None = the argument alone is rejected *)
+  Definition gen_bounds (s : csig) (a : annot) (vs : list aval) : option (list tagged) :=
+    match a with
+    | AnnNone | AnnTy _ => Some []
+    | AnnVar k =>
+        match av_values vs with
+        | None => None
+        | Some l => match unite_all l with
+                    | None => lower_gen s k (any_generic O)   (* an empty *args / **kwargs: its element type is Any *)
+                    | Some u => lower_gen s k u
+                    end
+        end
+    | AnnList k => all_gen (fun x => match x with AList e => lower_gen s k e | _ => None end) vs
+    | AnnDict k j => all_gen (fun x => match x with
+                                       | ADict kk vv => both (lower_gen s k kk) (lower_gen s j vv)
+                                       | _ => None end) vs
+    | AnnFun k r => all_gen (fun x => match x with
+                                      | AFun p q =>
+                                          both (upper_gen s k p)
+                                               (match r with
+                                                | RNone => Some []
+                                                | RTy t => if acc O t q then Some [] else None
+                                                | RVar j => lower_gen s j q
+                                                end)
+                                      | _ => None end) vs
+    end.
+
+  Definition has_tv (a : annot) : bool :=
+    match a with AnnNone | AnnTy _ => false | _ => true end.
 
   Inductive diag : Type :=
-  | IncompatibleCall                  (* binding failed *)
-  | CannotResolve                     (* "Cannot resolve type variables" *)
+  | IncompatibleCall
+  | CannotResolve
   | IncompatibleArgument (p : N).
 
-  (* first pass (only parameters mentioning T): every argument on its own *)
-  Definition t_values (b : list (param * barg)) : list V :=
-    flat_map (fun '(p, ba) => if is_var (ann p) then map val (objs_of ba) else []) b.
-
-  Definition pass1_fail (d : @decl V) (b : list (param * barg)) : option N :=
-    match find (fun '(p, ba) => is_var (ann p) &&
-                  negb (forallb (fun o => arg_ok O limit d (val o)) (objs_of ba))) b with
-    | Some (p, _) => Some (pname p)
-    | None => None
-    end.
-
-  (* second pass: every bound argument against the substituted annotation *)
-  Definition pass2 (sol : V) (b : list (param * barg)) : list diag :=
-    flat_map (fun '(p, ba) => if arg_fits (sub sol (ann p)) ba then []
-                              else [IncompatibleArgument (pname p)]) b.
-
-  (* get_default_return: T := Any *)
-  Definition inferred (sol : V) (a : annot) : V :=
-    match a with AnnNone => any_generic O | AnnTy t => t | AnnVar => sol end.
-  Definition default_ret (s : sig) : V := inferred (any_inference O) (ret s).
-
-  Definition check_call (s : sig) (c : call) : list diag * V :=
-    match bind s c with
-    | None => ([IncompatibleCall], default_ret s)
-    | Some b =>
-        match pass1_fail (tdecl s) b with
-        | Some n => ([IncompatibleArgument n], default_ret s)
-        | None =>
-            match mresolve O limit (flat_map (arg_bounds (tdecl s)) (t_values b)) with
-            | Err => ([CannotResolve], default_ret s)
-            | Sol sol => (pass2 sol b, inferred sol (ret s))
+  (* first pass: parameters mentioning a type variable, in order; the first
+     rejected argument stops the check *)
+  Fixpoint pass1 (s : csig) (b : list (cparam * barg)) : N + list tagged :=
+    match b with
+    | [] => inr []
+    | (p, ba) :: rest =>
+        let here :=
+          if has_tv (ann p) then
+            match ba with
+            | BVals vs => gen_bounds s (ann p) vs
+            | BDefault None => Some []
+            | BDefault (Some d) => match gen_bounds s (ann p) [d] with Some l => Some l | None => Some [] end
             end
+          else Some [] in
+        match here with
+        | None => inl (pname (cp p))
+        | Some l => match pass1 s rest with
+                    | inl n => inl n
+                    | inr l' => inr (l ++ l')
+                    end
         end
     end.
 
-  Definition diagnosed (s : sig) (c : call) : bool :=
+  Definition bounds_for (k : nat) (l : list tagged) : list (PV.TypeVar.Base.bound V) :=
+    flat_map (fun '(j, b) => if Nat.eqb j k then [b] else []) l.
+
+  Definition tvs (l : list tagged) : list nat := map fst l.
+
+  (* resolve_bounds_map: every type variable that received bounds *)
+  Definition solved (l : list tagged) (k : nat) : result V :=
+    match bounds_for k l with
+    | [] => Sol (any_generic O)
+    | bs => mresolve O limit bs
+    end.
+
+  Definition resolve_ok (l : list tagged) : bool :=
+    forallb (fun k => negb (is_err (solved l k))) (tvs l).
+
+  Definition sol_of (l : list tagged) (k : nat) : V :=
+    match solved l k with Sol v => v | Err => any_inference O end.
+
+  (* second pass: every bound argument against the substituted annotation *)
+  Definition fits1 (sol : nat -> V) (a : annot) (x : aval) : bool :=
+    match a, x with
+    | AnnNone, _ => true
+    | AnnTy t, AV v => acc O t v
+    | AnnVar k, AV v => acc O (sol k) v
+    | AnnList k, AList e => acc O (sol k) e
+    | AnnDict k j, ADict kk vv => acc O (sol k) kk && acc O (sol j) vv
+    | AnnFun k r, AFun p q =>
+        acc O p (sol k) &&                  (* parameters are contravariant *)
+        match r with RNone => true | RTy t => acc O t q | RVar j => acc O (sol j) q end
+    | _, _ => false
+    end.
+
+  Definition fits (sol : nat -> V) (a : annot) (b : barg) : bool :=
+    match b with
+    | BDefault _ => true
+    | BVals vs => forallb (fits1 sol a) vs
+    end.
+
+  Definition pass2 (sol : nat -> V) (b : list (cparam * barg)) : list diag :=
+    flat_map (fun '(p, ba) => if fits sol (ann p) ba then [] else [IncompatibleArgument (pname (cp p))]) b.
+
+  Definition inferred (sol : nat -> V) (r : rann) : V :=
+    match r with RNone => any_generic O | RTy t => t | RVar j => sol j end.
+  Definition default_ret (s : csig) : V := inferred (fun _ => any_inference O) (cret s).
+
+  Definition check_call (s : csig) (c : ccall) : list diag * V :=
+    match cbind s c with
+    | None => ([IncompatibleCall], default_ret s)
+    | Some b =>
+        match pass1 s b with
+        | inl n => ([IncompatibleArgument n], default_ret s)
+        | inr l =>
+            if resolve_ok l
+            then (pass2 (sol_of l) b, inferred (sol_of l) (cret s))
+            else ([CannotResolve], default_ret s)
+        end
+    end.
+
+  Definition diagnosed (s : csig) (c : ccall) : bool :=
     match fst (check_call s c) with [] => false | _ => true end.
 
-  Definition no_vars (s : sig) : bool := forallb (fun p => negb (is_var (ann p))) (params s).
+  Definition no_tv (s : csig) : bool := forallb (fun p => negb (has_tv (ann p))) (cparams s).
+  Definition concrete_call (c : ccall) : bool := negb (is_some (a_star c)) && negb (is_some (a_starkw c)).
 End CallModel.
 
+Arguments AV {V}.
+Arguments AList {V}.
+Arguments ADict {V}.
+Arguments AFun {V}.
+Arguments RNone {V}.
+Arguments RTy {V}.
+Arguments RVar {V}.
 Arguments AnnNone {V}.
 Arguments AnnTy {V}.
 Arguments AnnVar {V}.
-Arguments BOne {Obj}.
-Arguments BDefault {Obj}.
-Arguments BMany {Obj}.
-Arguments IncompatibleCall.
-Arguments CannotResolve.
-Arguments IncompatibleArgument.
+Arguments AnnList {V}.
+Arguments AnnDict {V}.
+Arguments AnnFun {V}.
+Arguments BVals {V}.
+Arguments BDefault {V}.
